@@ -175,6 +175,55 @@ pub(super) fn ensure_runtime_expression_compatible<S: GraphSnapshot>(
             ensure_runtime_expression_compatible(&binary.right, row, snapshot, params)
         }
         Expression::FunctionCall(call) => {
+            // List quantifiers and reduce() evaluate their body once per element, with the element
+            // (and the accumulator) bound: check the body in that scope, like a list comprehension,
+            // instead of against the outer row where the variable is unbound.
+            if call.name.starts_with("__quant_")
+                && let [Expression::Variable(var), list, predicate] = call.args.as_slice()
+            {
+                ensure_runtime_expression_compatible(list, row, snapshot, params)?;
+                if let Value::List(items) =
+                    crate::evaluator::evaluate_expression_value(list, row, snapshot, params)
+                {
+                    for item in items {
+                        let scoped_row = row.clone().with(var.clone(), item);
+                        ensure_runtime_expression_compatible(
+                            predicate,
+                            &scoped_row,
+                            snapshot,
+                            params,
+                        )?;
+                    }
+                }
+                return Ok(());
+            }
+            if call.name.eq_ignore_ascii_case("__reduce")
+                && let [Expression::Variable(acc_var), init, Expression::Variable(var), list, step] =
+                    call.args.as_slice()
+            {
+                ensure_runtime_expression_compatible(init, row, snapshot, params)?;
+                ensure_runtime_expression_compatible(list, row, snapshot, params)?;
+                let mut acc =
+                    crate::evaluator::evaluate_expression_value(init, row, snapshot, params);
+                if let Value::List(items) =
+                    crate::evaluator::evaluate_expression_value(list, row, snapshot, params)
+                {
+                    for item in items {
+                        let scoped_row = row
+                            .clone()
+                            .with(acc_var.clone(), acc.clone())
+                            .with(var.clone(), item);
+                        ensure_runtime_expression_compatible(step, &scoped_row, snapshot, params)?;
+                        acc = crate::evaluator::evaluate_expression_value(
+                            step,
+                            &scoped_row,
+                            snapshot,
+                            params,
+                        );
+                    }
+                }
+                return Ok(());
+            }
             for arg in &call.args {
                 ensure_runtime_expression_compatible(arg, row, snapshot, params)?;
             }
